@@ -9,7 +9,7 @@ from decaylanguage import DaughtersDict, DecayMode
 from decaylanguage.utils import charge_conjugate_name
 
 from mc import decobs
-from mc.core import pmap, short_hash
+from mc.core import pmap, short_hash, run_tasks
 from props.c01_tables import labels
 from ref import conj, decmodel
 
@@ -191,8 +191,7 @@ def run(ctx):
     cd_items = [it for it in items if it[0] == "cdecay"]
     other = [it for it in items if it[0] != "cdecay"]
     chunks = [other[i:i + 60] for i in range(0, len(other), 60)] + [cd_items[i:i + 60] for i in range(0, len(cd_items), 60)]
-    for r in pmap(work, chunks, ctx.workers):
-        ctx.absorb(r)
+    run_tasks(ctx, work, chunks)
     ctx.count(states=len(items), transitions=2 * (len(evt) + len(pdg)) + len(items))
     kinds_k = conj.kind
     ctx.part("names", evtgen=len(evt), pdg=len(pdg), unknown_labels=len(unknown),
